@@ -855,7 +855,7 @@ fn build_mutated(ex: &Ex, mus: &[Mu], p: &Prep, art: &BaseArt) -> Option<(Slate,
 		None
 	} else {
 		let recipient = if ex.flow == Flow::SelfSend { ("A".to_owned(), 1) } else { ("B".to_owned(), 0) };
-		excess_of(&first, &reply).map(|excess| PEnv { amount: p.amount, excess, other_excess: Commitment::from_vec(util::from_hex(&p.cb_excess).unwrap()), sender: ("A".to_owned(), 0), recipient })
+		excess_of(&first, &reply).map(|excess| PEnv { amount: p.amount, excess, other_excess: Commitment::from_vec(util::from_hex(&p.cb_excess).unwrap()), sender: ("A".to_owned(), 0), recipient, fee: first.fee_fields.clone() })
 	};
 	let env = Env { first, other, y2, amount: p.amount, fee, m_commit: Commitment::from_vec(util::from_hex(&art.m_commit).unwrap()), penv, flow: ex.flow };
 	let mut v4 = SlateV4::from(&reply);
